@@ -20,10 +20,10 @@ ASSUME = ["single-threaded histories over RaggedArray construction, lazy selecti
           "classified as the known finding K1 only when the heap model predicts the implementation's outputs exactly"]
 RULE = ("seeded random histories: 1-2 built arrays (shapes with empty rows), then 2..6 (thorough: ..8) operations from select / read / assign over all arrays "
         "in scope; each history is run once as is and once per (position, array, read kind) with one extra read inserted (all positions; seeded choice of "
-        "array and kind; kinds: tolist str ravel sum ufunc concatenate iter int-row | len shape size discarded-selection); compared: every read output and the "
+        "array and kind; kinds: tolist str ravel sum ufunc concatenate iter int-row | len shape size discarded-selection str-and-nothing-else); compared: every read output and the "
         "final content of every array; non-trivial = the history contains an assignment and a selection; distinct = distinct (history, insertion)")
 MAT_READS = ["tolist", "str", "ravel", "sum", "ufunc", "concatenate", "iter", "introw", "mean", "max", "gtcol", "mulcol", "subcol", "sort", "where", "nonzero", "sum0", "colcounts", "padded", "accumulate", "nonzero_m", "elemarr"]
-PEEKS = ["len", "shape", "size", "peeksel"]
+PEEKS = ["len", "shape", "size", "peeksel", "strpeek"]      # strpeek: print the array and nothing else (str() works on a[:20], a new array)
 BASES = [[[0, 1, 2], [3, 4], [5], [6, 7]], [[], [0, 1], [2], []], [[0, 1, 2, 3], [4, 5, 6], [7, 8, 9, 10]], [[0], [], [1, 2]]]
 
 
@@ -121,6 +121,7 @@ def run_impl(ops):
             elif kind == "shape": x.shape
             elif kind == "size": x.size
             elif kind == "peeksel": x[0:1]
+            elif kind == "strpeek": str(x)
             else: res = read_result(x, kind)
             outs.append([res, [[int(v) for v in r] for r in x.tolist()]] if kind in MAT_READS else "peek")
     return outs
@@ -223,8 +224,35 @@ def shared_buffer_stage(R, tier, rng):
                          py=f"src = RaggedArray({B}, dtype=float); child = RaggedArray(src.ravel(){vname}, {lens}); [read:{kind}(child)]; src[{ci},{cj}] = 99; child.tolist(); src.tolist(); child[0,0] = -7; ...")
 
 
+def print_stage(R, tier, rng):
+    """printing (str) and the size queries of a selection that nobody has read yet: the later results are the same with and without them
+    (the two runs are compared with each other; the printed text itself is compared with the rows)"""
+    import numpy as np
+    from npstructures import RaggedArray
+    from harness.fam_ra2 import kl
+    big = [[float(10 * i + j) for j in range(i % 4)] for i in range(30)]
+    SELS = [("[1:3]", lambda a: a[1:3]), ("[[2, 0]]", lambda a: a[[2, 0]]), ("[:, 1:]", lambda a: a[:, 1:]), ("[::-1]", lambda a: a[::-1]),
+            ("[mask]", lambda a: a[np.array([i % 2 == 0 for i in range(len(a))])]), ("[1:, ::-1]", lambda a: a[1:, ::-1])]
+    for B in BASES + [big]:
+        for sname, sel in SELS:
+            for kind in ("str", "len-shape-size", "str-twice"):
+                def program(with_read):
+                    src = RaggedArray(B, dtype=float); v = sel(src); txt = None
+                    if with_read:
+                        if kind == "str": txt = str(v)
+                        elif kind == "str-twice": str(v); txt = str(v)
+                        else: (len(v), v.shape, v.size)
+                    for i in range(len(B)):
+                        if len(B[i]): src[i] = -src[i] - 1
+                    return [kl(v.tolist()), kl(src.tolist())], txt
+                without = guarded(lambda: program(False)[0]); withr = guarded(lambda: program(True)[0])
+                R.record(f"print-unread-selection {B if len(B) < 9 else '30 rows'}{sname} read:{kind}", withr, without, without, True, "unread-selection/" + kind,
+                         py=f"src = RaggedArray({B if len(B) < 9 else '[[10*i+j for j in range(i%4)] for i in range(30)]'}, dtype=float); v = src{sname}; [{kind}(v)]; src[i] = -src[i] - 1 for every non-empty row; v.tolist(); src.tolist()")
+
+
 def run(R, tier, rng):
     shared_buffer_stage(R, tier, rng)
+    print_stage(R, tier, rng)
     n_hist = 2500 if tier == "thorough" else 700
     pairs = []          # (H ops, H' ops, insertion position, description)
     # the refuting witness of C10_refuted_witness first (corpus)
